@@ -36,24 +36,101 @@ theorem rejected_has_no_type : Statement.rejected_has_no_type := ZV.ZCore.reject
 /-- Acceptance of a program is derivability of `⊢ body : OS`. -/
 theorem program_accepted_iff : Statement.program_accepted_iff := ZV.ZCore.program_accepted_iff_pf
 
-/-- The level discipline of `lub.rs` decides exactly alpha-equivalence (for every pair of types;
-the naming discipline is not even needed). -/
+/-- The level discipline of `lub.rs` and its by-name comparison of the arms of `data` / `codata`
+declarations decide exactly alpha-equivalence up to the declaration order of arms (for every pair
+of types whose declarations repeat no name; the naming discipline of binders is not even needed). -/
 theorem lub_iff_alpha : LubStatement.lub_iff_alpha := ZV.Lub.lub_iff_alpha_pf
 
-/-- the same, with no side condition at all -/
-theorem lubEq_iff_alphaEq (a b : ZV.Lub.Ty) :
-    ZV.Lub.lubEq {} a b = true ↔ ZV.Lub.alphaEq a b = true := ZV.Lub.lubEq_iff_alphaEq a b
+/-- the same, with `WF` as the only side condition -/
+theorem lubEq_iff_alphaEq (a b : ZV.Lub.Ty) (wa : ZV.Lub.WF a = true) (wb : ZV.Lub.WF b = true) :
+    ZV.Lub.lubEq {} a b = true ↔ ZV.Lub.alphaEq a b = true := ZV.Lub.lubEq_iff_alphaEq a b wa wb
 
-/-- Comparison is reflexive. -/
+/-- the same below arbitrary binder stacks of equal length -/
+theorem lubEq_iff_toDB (a b : ZV.Lub.Ty) (envL envR : List Nat) (h : envL.length = envR.length)
+    (wa : ZV.Lub.WF a = true) (wb : ZV.Lub.WF b = true) :
+    ZV.Lub.lubEq (ZV.Lub.ctxOf envL envR) a b = true ↔ ZV.Lub.toDB envL a = ZV.Lub.toDB envR b :=
+  ZV.Lub.lubEq_iff_toDB a b envL envR h wa wb
+
+/-- Comparison is reflexive (no repeated names in declarations). -/
 theorem lub_refl : LubStatement.lub_refl := ZV.Lub.lub_refl_pf
+
+/-- Without that side condition it is not: a declaration that repeats a name with two types
+differs from itself. -/
+theorem lub_not_refl_on_repeated_name : LubStatement.lub_not_refl_on_repeated_name :=
+  ZV.Lub.lub_not_refl_on_repeated_name_pf
 
 /-- Alpha-equivalence is an equivalence relation. -/
 theorem alpha_equiv : LubStatement.alpha_equiv := ZV.Lub.alpha_equiv_pf
+
+/-- The specification of declarations without any order: same set of names, and name by name
+equal nameless forms. -/
+theorem alpha_decl_spec : LubStatement.alpha_decl_spec := ZV.Lub.alpha_decl_spec_pf
+
+/-- the same at top level -/
+theorem alpha_decl_spec_top : LubStatement.alpha_decl_spec_top := ZV.Lub.alpha_decl_spec_top_pf
+
+/-- Permuting the arms of declarations anywhere inside a type yields an equivalent type. -/
+theorem arm_order_irrelevant : LubStatement.arm_order_irrelevant := ZV.Lub.arm_order_irrelevant_pf
+
+/-- The comparison is by name: same names, positionally equal result types, different types. -/
+theorem positional_comparison_differs : LubStatement.positional_comparison_differs :=
+  ZV.Lub.positional_comparison_differs_pf
+
+/-- ... while the positional variant would accept that pair. -/
+theorem positional_variant_accepts :
+    ZV.Lub.lubEqZip {} LubStatement.personL LubStatement.personR = true :=
+  ZV.Lub.positional_variant_accepts
 
 /-- `forall X Y. X` and `forall X Y. Y` differ. -/
 theorem permuted_binders_differ : LubStatement.permuted_binders_differ := ZV.Lub.permuted_binders_differ_pf
 
 /-- A bound variable is never equal to a free one. -/
 theorem bound_vs_free_differ : LubStatement.bound_vs_free_differ := ZV.Lub.bound_vs_free_differ_pf
+
+-- Non-vacuity: the hypotheses are satisfiable on types with binders and declarations, and the
+-- comparison does accept reordered declarations and reject exchanged arm types.
+namespace Demo
+open ZV.Lub
+
+/-- `forall (X : VType) . codata | .0 : X -> Ret (data | +0 : X | +1 : Int end) | .1 : Ret String end` -/
+def left : Ty := .all 0 7 (.codata (.cons 0 (.arr (.var 7) (.ret (.data (.cons 0 (.var 7) (.cons 1 .int .nil)))))
+  (.cons 1 (.ret .str) .nil)))
+/-- the same with another binder identity and both declarations reordered -/
+def right : Ty := .all 0 9 (.codata (.cons 1 (.ret .str)
+  (.cons 0 (.arr (.var 9) (.ret (.data (.cons 1 .int (.cons 0 (.var 9) .nil))))) .nil)))
+/-- `right` with the types of the inner declaration's arms exchanged (names stay) -/
+def exchanged : Ty := .all 0 9 (.codata (.cons 1 (.ret .str)
+  (.cons 0 (.arr (.var 9) (.ret (.data (.cons 1 (.var 9) (.cons 0 .int .nil))))) .nil)))
+
+theorem wf : WF left = true ∧ WF right = true ∧ WF exchanged = true := by decide
+theorem fresh_left : Fresh left := by
+  refine ⟨by decide, ?_⟩
+  intro x hx
+  have : x = 7 := by simpa [left, binders, bindersArms] using hx
+  subst this
+  decide
+theorem reordered_equal : lubEq {} left right = true ∧ lubEq {} right left = true := by decide
+theorem reordered_alpha : alphaEq left right = true := by decide
+theorem exchanged_differs : lubEq {} left exchanged = false ∧ alphaEq left exchanged = false := by decide
+-- the nameless form keeps arms sorted by name whatever the declaration order
+theorem nameless_sorted : toDB [] right = .all 0 (.codata
+    (.cons 0 (.arr (.bound 0) (.ret (.data (.cons 0 (.bound 0) (.cons 1 .int .nil)))))
+    (.cons 1 (.ret .str) .nil))) := by decide
+-- a permutation of the inner declaration reached through `codata_head` below a binder
+theorem nested_permutation : ArmPerm
+    (.all 0 7 (.codata (.cons 0 (.ret (.data (.cons 0 .int (.cons 1 .str .nil)))) .nil)))
+    (.all 0 7 (.codata (.cons 0 (.ret (.data (.cons 1 .str (.cons 0 .int .nil)))) .nil))) :=
+  .all (.codata_head (.ret (.data_perm (List.Perm.swap _ _ _))))
+-- `left` and `right` are related by `ArmPerm` only up to the binder identity; with the same identity:
+theorem arm_order_instance :
+    lubEq {} (.codata (.cons 0 (.ret .int) (.cons 1 (.ret .str) .nil)))
+      (.codata (.cons 1 (.ret .str) (.cons 0 (.ret .int) .nil))) = true :=
+  (arm_order_irrelevant (.codata (.cons 0 (.ret .int) (.cons 1 (.ret .str) .nil)))
+    (.codata (.cons 1 (.ret .str) (.cons 0 (.ret .int) .nil))) (by decide)
+    (.codata_perm (List.Perm.swap _ _ _))).1
+-- a declaration that repeats a name is outside `WF`
+theorem repeated_name_not_wf : WF (.data (.cons 0 .int (.cons 0 .str .nil))) = false := by decide
+
+end Demo
 
 end ZV.Props.C03
